@@ -50,6 +50,7 @@ type Stmt struct {
 	NoParse       bool          // PostgreSQL: execute the statement prepared earlier under Name (no Parse message)
 	IdleBefore    time.Duration // the client stays silent for this long before sending the statement
 	Reexec        bool          // PostgreSQL: the (named) statement is bound and executed a second time without a new Parse
+	Pre           []string      // MySQL: statements sent in the text protocol before this one (their answers must be OK)
 	PrepareOnly   bool          // MySQL (own client): COM_STMT_PREPARE only
 	Direct        bool          // MySQL (own client): COM_STMT_EXECUTE with statement id -1 (MariaDB: the last prepared statement)
 	rerun         bool
